@@ -366,7 +366,17 @@ impl<F: Write + Seek> Allocator<F> {
         debug_assert!(index <= self.fat.len());
         let fat_entries_per_sector =
             self.sectors.sector_len() / size_of::<u32>();
-        let fat_sector_id = self.difat[index / fat_entries_per_sector];
+        // A damaged file can have more sectors than its FAT sectors have
+        // entries for (open pads the in-memory FAT to the sector count).
+        let Some(&fat_sector_id) =
+            self.difat.get(index / fat_entries_per_sector)
+        else {
+            invalid_data!(
+                "FAT has no entry for sector {} (the file has more sectors \
+                 than its FAT covers)",
+                index
+            );
+        };
         let offset_within_sector = 4 * (index % fat_entries_per_sector) as u64;
         let mut sector = self
             .sectors
